@@ -38,7 +38,7 @@ const EXTREMES: [i32; 16] = [i32::MIN, i32::MIN + 1, -65_536, -32_769, -32_768, 
 
 pub fn assumptions() -> Vec<String> {
     vec![
-        "SX126x PA decode: a SetPaConfig equal to an 'optimal settings' row of data sheet table 13-21 (SX1262: (duty,hpMax) (4,7)=+22, (3,5)=+20, (2,3)=+17, (2,2)=+14, each with SetTxParams +22; SX1261: (6,0)=+15 and (4,0)=+14 with SetTxParams +14, (1,0)=+10 with SetTxParams +13) yields row power minus (row SetTxParams - written SetTxParams), i.e. output tracks SetTxParams dB for dB inside a row; any other SetPaConfig is undecodable and only the clamping/monotonic clauses are checked for it".into(),
+        "SX126x PA decode: a SetPaConfig equal to an 'optimal settings' row of data sheet table 13-21 (SX1262: (duty,hpMax) (4,7)=+22, (3,5)=+20, (2,3)=+17, (2,2)=+14, each with SetTxParams +22; SX1261: (6,0)=+15 and (4,0)=+14 with SetTxParams +14, (1,0)=+10 with SetTxParams +13) yields row power minus (row SetTxParams - written SetTxParams), i.e. output tracks SetTxParams dB for dB inside a row; any other SetPaConfig is undecodable and only the clamping/monotonic clauses are checked for it, except that paDutyCycle above 0x04 (high-power PA) / 0x07 (low-power PA) or hpMax above 0x07 break the limits section 13.1.14 sets".into(),
         "STM32WL high-power row (2,2) is set-valued: Semtech's table (+14 at SetTxParams +22) and ST's characterisation (SetTxParams value = output dBm) are both accepted".into(),
         "SetTxParams power must lie in -17..+14 (low-power PA) / -9..+22 (high-power PA) and deviceSel must name the PA of the variant (data sheet 13.1.14, 13.4.4)".into(),
         "chip ranges (set-valued where the data sheet gives two numbers): SX1261 -17..+15 or -17..+14 (only -17..+14 below 400 MHz, where an InvalidOutputPowerForFrequency refusal of >= +15 is accepted as well), SX1262 -9..+22, SX1276 RFO -4..+14 or -4..+15, SX1276/72 PA_BOOST +2..+20 or +2..+17, SX1272 RFO -1..+14".into(),
@@ -93,6 +93,11 @@ fn decode(variant: &str, pa: &str, s: &Seen) -> Dec {
             let (lo, hi) = if hp { (-9, 22) } else { (-17, 14) };
             if txp < lo || txp > hi {
                 return Dec::Illegal("illegal-txparams", format!("SetTxParams power {} outside {}..{}", txp, lo, hi));
+            }
+            // data sheet 13.1.14: paDutyCycle above 0x04 (high-power PA) / 0x07 (low-power PA) and hpMax
+            // above 0x07 are outside the specified operating range of the PA
+            if (hp && c[0] > 4) || (!hp && c[0] > 7) || c[1] > 7 {
+                return Dec::Illegal("pa-config-out-of-limits", format!("SetPaConfig duty={:#x} hpMax={:#x} exceeds the limits of the {} PA (duty <= {:#x}, hpMax <= 0x07)", c[0], c[1], if hp { "high-power" } else { "low-power" }, if hp { 4 } else { 7 }));
             }
             let rows: &[((u8, u8), i32, i32)] = if hp { &[((4, 7), 22, 22), ((3, 5), 20, 22), ((2, 3), 17, 22), ((2, 2), 14, 22)] } else { &[((6, 0), 15, 14), ((4, 0), 14, 14), ((1, 0), 10, 13)] };
             let mut cands = vec![];
